@@ -21,6 +21,7 @@ import Mfi.Props.C03
 import Mathlib.Tactic.Linarith
 import Mathlib.Tactic.Ring
 import Mathlib.Tactic.Positivity
+import Mfi.Lemmas.TagL
 
 namespace Mfi.Props.C01
 open Mfi Mfi.Fx Mfi.Bank Mfi.Interest Mfi.Gen
@@ -936,5 +937,10 @@ theorem solvent_up_to_allowance (ops : List (Int × SOp)) (s : Sys) (hi : Mfi.Pr
   have := (solvency_history ops s hi hok).1
   unfold potential at this
   omega
+
+/-- the token-denominated accounting this file is about is the only accounting the standard instructions can reach:
+    they are constrained to the program's own banks (constraint table regenerated from the source; Mfi.TagL) -/
+theorem standard_instructions_only_on_own_banks : Mfi.TagL.OwnBanks :=
+  Mfi.TagL.standard_instructions_only_on_own_banks
 
 end Mfi.Props.C01
